@@ -117,7 +117,7 @@ Shapes ==
 
 -----------------------------------------------------------------------------
 (* Contexts: where the shape sits *)
-Ctxs == <<"struct", "rostruct", "message", "depmsg", "union", "tailstruct">>
+Ctxs == <<"struct", "rostruct", "message", "depmsg", "union", "tailstruct", "uniontail">>
 
 StructFields(T) == << Fld("pre", P("bool")), Fld("f", T), Fld("post", P("uint8")) >>
 MsgFields(T, dep) == << MFld(1, "pre", P("bool"), FALSE), MFld(2, "f", T, dep),
@@ -127,6 +127,9 @@ RootDefs(T, ctx) ==
   CASE ctx = "struct"   -> << [name |-> "Root", kind |-> "struct", ro |-> FALSE, fields |-> StructFields(T)] >>
     [] ctx = "tailstruct" -> << [name |-> "Root", kind |-> "struct", ro |-> FALSE,
                                   fields |-> << Fld("pre", P("bool")), Fld("f", T) >>] >>   \* the shape ends the buffer
+    [] ctx = "uniontail" -> << [name |-> "Root", kind |-> "union", branches |-> << [idx |-> 4, n |-> "RootA"] >>],
+                                 [name |-> "RootA", kind |-> "struct", ro |-> FALSE, inner |-> "Root",
+                                  fields |-> << Fld("pre", P("bool")), Fld("f", T) >>] >>   \* the shape ends a length-limited body
     [] ctx = "rostruct" -> << [name |-> "Root", kind |-> "struct", ro |-> TRUE, fields |-> StructFields(T)] >>
     [] ctx = "message"  -> << [name |-> "Root", kind |-> "message", fields |-> MsgFields(T, FALSE)] >>
     [] ctx = "depmsg"   -> << [name |-> "Root", kind |-> "message", fields |-> MsgFields(T, TRUE)] >>
@@ -179,24 +182,46 @@ MixDefs(m) ==
   ELSE << [name |-> "Root", kind |-> "message",
            fields |-> [j \in 1..MixN(m) |-> MFld(2 * j - 1, "f" \o ToString(j), MixShape(m, j).t, m % 5 = 0 /\ j = 2)]] >>
 
+\* "wide" records: long runs of fixed-width fields (sizes beyond one byte's range), many message fields
+WideSpecs == << [kind |-> "struct", n |-> 33, p |-> "float64", tail |-> "string"],
+                [kind |-> "struct", n |-> 18, p |-> "guid", tail |-> "int32"],
+                [kind |-> "struct", n |-> 70, p |-> "int32", tail |-> "uint8"],
+                [kind |-> "message", n |-> 40, p |-> "int64", tail |-> "string"],
+                [kind |-> "struct", n |-> 260, p |-> "bool", tail |-> "uint16"] >>
+NWide == Len(WideSpecs)
+WideDefs(w) ==
+  LET ws == WideSpecs[w] IN
+  IF ws.kind = "struct"
+  THEN << [name |-> "Root", kind |-> "struct", ro |-> FALSE,
+           fields |-> [j \in 1..ws.n |-> Fld("f" \o ToString(j), P(ws.p))] \o << Fld("tail", P(ws.tail)) >>] >>
+  ELSE << [name |-> "Root", kind |-> "message",
+           fields |-> [j \in 1..ws.n |-> MFld(j, "f" \o ToString(j), P(ws.p), FALSE)] \o << MFld(ws.n + 1, "tail", P(ws.tail), FALSE) >>] >>
+
 NShapes == Len(Shapes)
 NCtx == Len(Ctxs)
 NBase == NShapes * NCtx
 NPairEnd == NBase + NPairSchemas
-NSchemas == NPairEnd + NMix
-IsMix(sid) == sid > NPairEnd
+NMixEnd == NPairEnd + NMix
+NSchemas == NMixEnd + NWide
+IsWide(sid) == sid > NMixEnd
+IsMix(sid) == sid > NPairEnd /\ sid <= NMixEnd
 IsPair(sid) == sid > NBase /\ sid <= NPairEnd
-ShapeOf(sid) == IF IsMix(sid)
+ShapeOf(sid) == IF IsWide(sid)
+                THEN [t |-> P(WideSpecs[sid - NMixEnd].p), sup |-> <<>>,
+                      tag |-> "wide<" \o ToString(WideSpecs[sid - NMixEnd].n) \o "x" \o WideSpecs[sid - NMixEnd].p \o ">"]
+                ELSE IF IsMix(sid)
                 THEN [t |-> MixShape(sid - NPairEnd, 1).t, sup |-> MixSup(sid - NPairEnd),
                       tag |-> "mix" \o ToString(sid - NPairEnd) \o "<" \o MixShape(sid - NPairEnd, 1).tag \o "," \o MixShape(sid - NPairEnd, 2).tag \o ",...>"]
                 ELSE IF IsPair(sid)
                 THEN [t |-> PairA(sid - NBase - 1).t, sup |-> PairSup(sid - NBase - 1),
                       tag |-> "pair<" \o PairA(sid - NBase - 1).tag \o "," \o PairB(sid - NBase - 1).tag \o ">"]
                 ELSE Shapes[((sid - 1) \div NCtx) + 1]
-CtxOf(sid) == IF IsMix(sid) THEN (IF (sid - NPairEnd) % 2 = 0 THEN "mixstruct" ELSE "mixmsg")
+CtxOf(sid) == IF IsWide(sid) THEN "wide" \o WideSpecs[sid - NMixEnd].kind
+              ELSE IF IsMix(sid) THEN (IF (sid - NPairEnd) % 2 = 0 THEN "mixstruct" ELSE "mixmsg")
               ELSE IF IsPair(sid) THEN (IF (sid - NBase - 1) % 2 = 0 THEN "pairstruct" ELSE "pairmsg")
               ELSE Ctxs[((sid - 1) % NCtx) + 1]
-SchemaOf(sid) == IF IsMix(sid) THEN MixSup(sid - NPairEnd) \o MixDefs(sid - NPairEnd)
+SchemaOf(sid) == IF IsWide(sid) THEN WideDefs(sid - NMixEnd)
+                 ELSE IF IsMix(sid) THEN MixSup(sid - NPairEnd) \o MixDefs(sid - NPairEnd)
                  ELSE IF IsPair(sid) THEN PairSup(sid - NBase - 1) \o PairDefs(sid - NBase - 1)
                  ELSE ShapeOf(sid).sup \o RootDefs(ShapeOf(sid).t, CtxOf(sid))
 RootT == R("Root")
